@@ -148,7 +148,7 @@ fn run_inner(c: &Case) -> Result<Outcome, Failure> {
 		let r = t.play(StreamingSoundData::from_decoder(dec).with_settings(settings));
 		ensure!(matches!(r, Err(PlaySoundError::SoundLimitReached)), "setup", "the second sound was not refused");
 		drop(r);
-		let waited = wait_dropped(&log, Duration::from_secs(2));
+		let waited = wait_dropped(&log, Duration::from_secs(4));
 		// release the blocker's thread
 		blocker.stop(instant());
 		m.backend_mut().callback(c.chunk, 2);
@@ -159,7 +159,7 @@ fn run_inner(c: &Case) -> Result<Outcome, Failure> {
 				discard: true,
 				starving: false,
 			}),
-			None => Err(Failure::new("decoder-thread-ends", "decoder-thread-ends:sound-rejected-by-full-track", format!("a streaming sound refused by a full track: its decoder was still alive 2 s later ({} decode calls so far); case {c:?}", log.decode_calls.load(Ordering::SeqCst)))),
+			None => Err(Failure::new("decoder-thread-ends", "decoder-thread-ends:sound-rejected-by-full-track", format!("a streaming sound refused by a full track: its decoder was still alive 4 s later ({} decode calls so far); case {c:?}", log.decode_calls.load(Ordering::SeqCst)))),
 		};
 	}
 	// the sound under test
@@ -361,14 +361,14 @@ fn run_inner(c: &Case) -> Result<Outcome, Failure> {
 			streamctl::set_budget(id, None);
 		}
 		let (why, _) = trigger.unwrap_or(("ended", Instant::now()));
-		if wait_dropped(&log, Duration::from_secs(2)).is_none() {
+		if wait_dropped(&log, Duration::from_secs(4)).is_none() {
 			let sig = match c.end {
 				End::TrackDropped(_) => "decoder-thread-ends:track-handle-dropped",
 				End::ManagerDropped(_) => "decoder-thread-ends:manager-dropped",
 				_ if errors > 0 => "decoder-thread-ends:after-decoder-error",
 				_ => "decoder-thread-ends",
 			};
-			return Err(Failure::new("decoder-thread-ends", sig, format!("2 s after '{why}' the decoding thread still holds its decoder ({} decode calls, {} errors); case {c:?}", log.decode_calls.load(Ordering::SeqCst), errors)));
+			return Err(Failure::new("decoder-thread-ends", sig, format!("4 s after '{why}' the decoding thread still holds its decoder ({} decode calls, {} errors); case {c:?}", log.decode_calls.load(Ordering::SeqCst), errors)));
 		}
 	} else {
 		// end the thread ourselves
@@ -492,11 +492,11 @@ impl Property for C10 {
 		"fault_enumeration"
 	}
 	fn rule(&self) -> &'static str {
-		"each case plays one streaming sound over a scripted decoder (index-coded frames, packet sizes 1..1152, seek granularity 1..64) through the real manager with a real decoding thread whose steps are scheduled through hook H2, under a fault plan (k-th decode() or seek() call fails once or forever), a scenario (main track, sub-track, sub-track paused beforehand; the sound itself playing, paused through its handle before its first callback, or waiting for a start time ten seconds away; natural end, stop() before callback j, refused by a full track, track handle dropped, manager dropped, left playing) and a decoder pace (ahead, n steps per callback, stalled after m steps). Oracles: the decoder object is released (its Drop is observed) within 2 s of the sound finishing / being stopped / failing / being refused or discarded; the decode loop runs at most 2w+50 times in an idle window of w ms; after a decoder error the sound is Stopped, unloaded one callback later, silent from then on, and pop_error() yields the first error; without faults the audible frames are a strictly increasing subsequence of the source with at most one frame skipped per gap of silence. Enumeration: every stream length 1..24 x packet size 1..4 x every fault position (decode call k, first / later seek, once / forever) on the main track and a sub-track, with the sound playing, paused or waiting for its start time. Non-trivial = a fault after at least one good packet, a discard scenario, or a starving decoder; distinct = distinct decoded choices."
+		"each case plays one streaming sound over a scripted decoder (index-coded frames, packet sizes 1..1152, seek granularity 1..64) through the real manager with a real decoding thread whose steps are scheduled through hook H2, under a fault plan (k-th decode() or seek() call fails once or forever), a scenario (main track, sub-track, sub-track paused beforehand; the sound itself playing, paused through its handle before its first callback, or waiting for a start time ten seconds away; natural end, stop() before callback j, refused by a full track, track handle dropped, manager dropped, left playing) and a decoder pace (ahead, n steps per callback, stalled after m steps). Oracles: the decoder object is released (its Drop is observed) within 4 s of the sound finishing / being stopped / failing / being refused or discarded; the decode loop runs at most 2w+50 times in an idle window of w ms; after a decoder error the sound is Stopped, unloaded one callback later, silent from then on, and pop_error() yields the first error; without faults the audible frames are a strictly increasing subsequence of the source with at most one frame skipped per gap of silence. Enumeration: every stream length 1..24 x packet size 1..4 x every fault position (decode call k, first / later seek, once / forever) on the main track and a sub-track, with the sound playing, paused or waiting for its start time. Non-trivial = a fault after at least one good packet, a discard scenario, or a starving decoder; distinct = distinct decoded choices."
 	}
 	fn assumptions(&self) -> Vec<String> {
 		vec![
-			"'bounded time' is 2 s (typical: < 5 ms); the idle-spin bound compares against the loop's 1 ms sleep".into(),
+			"'bounded time' is 4 s (typical: < 5 ms); the idle-spin bound compares against the loop's 1 ms sleep".into(),
 			"the harness owns the schedule at decoder-step / callback granularity (hook H2), not inside a step".into(),
 			"known-finding classes are excluded by construction and replayed as witnesses (see KNOWN_FINDINGS.txt)".into(),
 		]
